@@ -100,6 +100,10 @@ class State:
         self.floor_next: list[int] = [0] * ngroups      # lower bound for the next started idx
         self.overlapped = False
         self.actor_stopped = False
+        # requests issued before a stop() of the distributor: what a stop does with the request in flight and the one
+        # parked behind it is outside the property (it speaks about a running distributor), so "the latest one is
+        # applied" is only demanded for requests issued after the restart
+        self.forgiven: list[int] = [0] * ngroups
         self.idx_of: dict[int, int] = {}                # id(Request object) -> send index (objects are kept alive)
         self.keep: list[Any] = []
         self.power_of: dict[int, float] = {}
@@ -145,7 +149,7 @@ class State:
         for g in range(len(self.groups)):
             latest = self.sent[g][-1] if self.sent[g] else 0
             self.sent_at_idle[g] = latest
-            if self.active[g] is None and latest:
+            if self.active[g] is None and latest and latest > self.forgiven[g]:
                 last_started = self.started[g][-1] if self.started[g] else 0
                 if last_started != latest:
                     sim.violation(
@@ -209,6 +213,8 @@ def scenario(sim: Sim) -> None:
                 sim.note("stop() + start() of the distributor")
                 sim.ev("restart", "", k)
                 st.actor_stopped = True
+                for g_ in range(ngroups):
+                    st.forgiven[g_] = st.sent[g_][-1] if st.sent[g_] else 0
                 await actor.stop()
                 if ch.chance("gap_while_stopped", 0.5):
                     await asyncio.sleep(ch.choice("stopped_for", [0.0, 0.01, 1.0]))
@@ -256,7 +262,7 @@ def scenario(sim: Sim) -> None:
         for g in range(ngroups):
             if st.active[g] is not None:
                 sim.violation("liveness", {"what": "distribution still active long after the last request"}, f"group {g}")
-            if st.sent[g] and (not st.started[g] or st.started[g][-1] != st.sent[g][-1]):
+            if st.sent[g] and st.sent[g][-1] > st.forgiven[g] and (not st.started[g] or st.started[g][-1] != st.sent[g][-1]):
                 sim.violation("eventually_latest", {"what": "last request of a group never applied"},
                               f"group {g}: sent {st.sent[g][-1]}, started {st.started[g][-3:]}")
         if probe.started != expected_starts:
